@@ -39,20 +39,23 @@ function clone(x){
   r={};ks=ownKeys(x);for(i=0;i<ks.length;i++)defp(r,ks[i],{value:clone(gopd(x,ks[i]).value),writable:true,enumerable:true,configurable:true});return r;
 }
 var SRC=__SRC__;
-function src(c){if(!SRC)return '';if(c===undefined)return '/noctx';if(c===null||typeof c!=='object')return '/ctx?'+typeof c;var ks=ownKeys(c);
-  if(gpo(c)!==OP)return '/ctx!proto';if(ks.length===0)return '/-';if(ks.length===1&&ks[0]==='source'&&okd(gopd(c,'source')))return '/s'+(typeof c.source==='string'?qs(c.source):'?');return '/ctx!'+ks.length;}
+function src(c){if(c===undefined)return 'noctx';if(c===null||typeof c!=='object')return 'ctx?'+typeof c;var ks=ownKeys(c);
+  if(gpo(c)!==OP)return 'ctx!proto';if(ks.length===0)return '-';if(ks.length===1&&ks[0]==='source'&&okd(gopd(c,'source')))return 's'+(typeof c.source==='string'?qs(c.source):'?');return 'ctx!'+ks.length;}
 function hk(h){return (isArr(h)?'A':'O')+ownKeys(h).length;}
 function rev1(i,t,mode){
-  var log=[],r;
+  // R line: the reviver walk (key, value, holder) - part of the verdict.  C line: the third argument (context.source of the
+  // JSON.parse-source-text proposal) - informational only, not part of the property.
+  var log=[],sl=[],r;
   try{
     r=jparse(t,function(k,v,c){
-      log.push(qs(k)+'/'+D(v)+'/'+hk(this)+src(c));
+      log.push(qs(k)+'/'+D(v)+'/'+hk(this));if(SRC)sl.push(src(c));
       if(mode===2&&typeof v==='number')return undefined;
       if(mode===3){var ks=ownKeys(this);if(isArr(this))ks.pop();if(ks.length>1&&ks[0]===k){var last=ks[ks.length-1];
         defp(this,last,{value:clone(gopd(this,last).value),writable:true,enumerable:true,configurable:true});}}
       return v;});
     emit('R'+mode+' '+i+' '+log.join(';')+' => '+D(r));
   }catch(e){emit('R'+mode+' '+i+' '+log.join(';')+' => err '+en(e));}
+  if(SRC)emit('C'+mode+' '+i+' '+sl.join(';'));
 }
 function revs(i,t){rev1(i,t,1);rev1(i,t,2);rev1(i,t,3);}
 var GEN={};
@@ -236,13 +239,12 @@ def _hk(h):
 
 
 def rev_line(mode, i, text, src_ctx):
-    log = []
+    """-> [R line (verdict: key / value / holder walk and result)] + [C line (informational: context.source per call)]"""
+    log, sl = [], []
 
     def f(holder, name, val, source):
-        e = qs(name) + "/" + dump(val) + "/" + _hk(holder)
-        if src_ctx:
-            e += "/-" if source is None else "/s" + qs(source)
-        log.append(e)
+        log.append(qs(name) + "/" + dump(val) + "/" + _hk(holder))
+        sl.append("-" if source is None else "s" + qs(source))
         if mode == 2 and isinstance(val, float):
             return UNDEF
         if mode == 3:
@@ -253,11 +255,14 @@ def rev_line(mode, i, text, src_ctx):
         return val
 
     r = J.parse_with_reviver(text, f)
-    return "R%d %d %s => %s" % (mode, i, ";".join(log), dump(r))
+    out = ["R%d %d %s => %s" % (mode, i, ";".join(log), dump(r))]
+    if src_ctx:
+        out.append("C%d %d %s" % (mode, i, ";".join(sl)))
+    return out
 
 
 def rev_lines(i, text, src_ctx):
-    return [rev_line(m, i, text, src_ctx) for m in (1, 2, 3)]
+    return [l for m in (1, 2, 3) for l in rev_line(m, i, text, src_ctx)]
 
 
 # ------------------------------------------------------------------------------------------------
